@@ -4,7 +4,8 @@ C13  Comment capture is faithful and does not perturb the parse.
 proof   Props/C13 (lexer model, action table, unparser definitions):
           token_comments_transparent / auto_semi_… / backtracked_token_… / p_error_… : the lexer with capture
           simulates the lexer without it step by step (equal tokens up to `hidden`, equal decisions, equal errors);
-          reduce_comments_transparent: a semantic action with capture yields the tree without capture + `@comments`;
+          actions_transparent: a semantic action without capture on erased arguments yields the erasure of its result;
+          comments_transparent (FULL): for all texts erase(parse(text, True)) = parse(text, False), same errors;
           comments_faithful_*: what `hidden` / `@comments` contain; no_comment_attached_twice (kernel decision over
           Gen.Actions); line_comment_followed_by_newline (kernel decision over Gen.Defs / Gen.Rules).
 tie     S2 (text -> tree with positions, token maps and comments, capture off and on) on the commented inputs;
@@ -651,8 +652,8 @@ def run(ctx):
              'a comment and at least one token; distinct by text')
     ctx.trusted += ['Lean 4.33 kernel', 'translators g_tables / g_actions / g_lexdata / g_defs / g_rules',
                     'Spec.Es5Lex / Spec.Es5Parse (comment list, trees) as the independent reference',
-                    'the end-to-end statement comments_transparent is proved from lexer-level and action-level simulation '
-                    'lemmas; see Props/C13.lean for what is assumed in comments_transparent_partial']
+                    'the end-to-end statement comments_transparent is proved for the composed model (lexer + LR + actions) '
+                    'with no hypothesis; faithfulness is proved at the lexer and set_comments levels, not end-to-end']
     ctx.assumptions += ['well-formed Unicode scalar sequences', 'pretty printer only (minify printers drop comments by design)']
     spec = specclient.Spec(ctx)
     known_witnesses(ctx, spec)
@@ -733,8 +734,8 @@ def erase_comments(v):
 
 
 def model_transparency(ctx, texts):
-    """the statement of Props.C13.comments_transparent_partial, evaluated on the composed Lean model (drv_parse): the reply
-    for `text 0` is the reply for `text 1` with the comments erased (covers its assumption ActionsTransparent on these inputs)"""
+    """the statement of Props.C13.comments_transparent, evaluated on the compiled Lean model (drv_parse): the reply for
+    `text 0` is the reply for `text 1` with the comments erased (a regression test of the driver against the theorem)"""
     drv = ctx.driver('drv_parse')
     texts = [t for t in texts if specclient.sendable(t)]
     r1 = drv.ask_many(['text 1 ' + proto.enc_str(t) for t in texts])
@@ -747,8 +748,8 @@ def model_transparency(ctx, texts):
             ok = a == b
         if not ok:
             diffs.append(dict(text=t, with_capture=a[:300], without=b[:300]))
-    ctx.obligation('model: erase(Parser.parse text true) = Parser.parse text false (comments_transparent on the model, incl. its '
-                   'assumption ActionsTransparent)', not diffs, 'tie', '%d texts; first differences: %r' % (len(texts), diffs[:2]))
+    ctx.obligation('model: erase(Parser.parse text true) = Parser.parse text false (comments_transparent evaluated on the '
+                   'compiled model)', not diffs, 'tie', '%d texts; first differences: %r' % (len(texts), diffs[:2]))
 
 
 def replay(ctx, path):
